@@ -651,3 +651,193 @@ PROPS["C07"] = dict(
                                    "offsets and stride are emitted symbolically (offset_of!, size_of) and evaluated by rustc (batch harness); wgpu's vertex-buffer rules (stride % 4, ...) are not modelled"],
     assumptions=["partial: Nodup of the impl blocks and per-entry buffer order are evaluated on the real output, the kernel-checked part is C07_structs / C07_format / the buffer count (C14)"],
 )
+
+
+def round_up(k, n):
+    return n if k == 0 else (n + k - 1) // k * k
+
+
+def extra_c10(pid, tier, seed, workdir, known, write_replay):
+    """real encase 0.10 bytes (harness `batch encase`) vs naga's WGSL offsets vs the Lean transcription Ext.Encase"""
+    n = 60 if tier == "quick" else 1200
+    cases = write_stream_file([("gen", "structs", seed, n), ("gen", "general", seed, n // 3)], os.path.join(workdir, "c10.cases"))
+    case_by_id = {}
+    for l in open(cases):
+        m = re.match(r'\(src "([^"]*)"', l)
+        if m:
+            case_by_id[m.group(1)] = l.rstrip("\n")
+    # Lean side: class + predicted layout per ShaderType struct
+    d = subprocess.run([os.path.join(BIN, "dump"), "--opts", "20"], stdin=open(cases), stdout=subprocess.PIPE, text=True)
+    v = subprocess.run([DRIVER, "C10"], input=d.stdout, stdout=subprocess.PIPE, text=True)
+    pred = {}
+    for line in v.stdout.split("\n"):
+        if not line.startswith("V|C10|"):
+            continue
+        f = line.split("|", 6)
+        for tag in f[6].split(","):
+            p = tag.split(";")
+            if len(p) >= 8 and p[0] == "s":
+                nums = lambda s: [int(x) for x in s.split(".") if x != ""]
+                pred[(f[2], p[1])] = dict(cls=p[2], plen=int(p[3]), stride=int(p[4]), poffs=nums(p[5]), noffs=nums(p[6]), nsize=int(p[7]),
+                                          align=int(p[8]) if len(p) > 8 else 1)
+    out_path = os.path.join(workdir, "c10.out")
+    b = subprocess.run([os.path.join(BIN, "batch"), "encase", "--cases", cases, "--out", out_path], stdout=subprocess.PIPE, stderr=subprocess.STDOUT, text=True)
+    items, counts, measured = [], {}, 0
+    if not os.path.exists(out_path):
+        items.append(("encase#harness", "batch encase produced no result: " + b.stdout[-300:], "", False))
+    else:
+        for line in open(out_path):
+            if line.startswith("(mod "):
+                t = parse_sexp(line)[0]
+                txt = line
+                if re.search(r"\bf64\b|DVec|DMat", txt) and "ShaderS" in txt or ("ShaderType" in txt and re.search(r"f64|DVec|DMat", txt)):
+                    counts["reject:f64"] = counts.get("reject:f64", 0) + 1
+                    items.append(("encase#f64-unsupported", "the module does not compile: encase 0.10 implements ShaderType for no f64 / DVec / DMat type", sx(t[1]), True))
+                else:
+                    counts["reject:other(C01)"] = counts.get("reject:other(C01)", 0) + 1
+                continue
+            if not line.startswith("(encase "):
+                continue
+            t = parse_sexp(line)[0]
+            cid, sname = sx(t[1]), sx(t[2])
+            lens = {int(x[1]): int(x[2]) for x in t[3:] if isinstance(x, list) and x[0] == "len"}
+            offs = [None if x[2] == "none" else int(x[2]) for x in t[3:] if isinstance(x, list) and x[0] == "field"]
+            measured += 1
+            p = pred.get((cid, sname))
+            if p is None:
+                items.append(("encase#no-prediction", f"struct {sname}: the Lean side has no entry for this struct", cid, False))
+                continue
+            counts["class:" + p["cls"]] = counts.get("class:" + p["cls"], 0) + 1
+            if p["cls"] in ("unpredictable", "no-such-struct"):
+                if p["cls"] != "out-of-domain":
+                    items.append(("encase#unpredictable", f"struct {sname}: Ext.Encase has no layout for an emitted field type", cid, False))
+                continue
+            # (a) validate the transcription against the real library
+            if p["poffs"]:
+                if p["stride"] == 0:
+                    exp_lens = {0: p["plen"]}
+                else:
+                    last = p["poffs"][-1]
+                    exp_lens = {k: round_up(p["align"], last + max(k, 1) * p["stride"]) for k in lens}
+                if [o for o in offs] != p["poffs"] or any(lens.get(k) != e for k, e in exp_lens.items()):
+                    items.append(("encase#transcription", f"struct {sname}: Ext.Encase predicts offsets {p['poffs']} len {exp_lens}, real encase wrote offsets {offs} len {lens}", cid, False))
+                    continue
+                counts["transcription-agrees"] = counts.get("transcription-agrees", 0) + 1
+            # (b) the property, for structs inside its domain
+            if p["cls"] == "out-of-domain":
+                continue
+            ok = offs == p["noffs"] and (p["stride"] != 0 or lens.get(0) == p["nsize"])
+            if ok:
+                counts["match:" + p["cls"]] = counts.get("match:" + p["cls"], 0) + 1
+                continue
+            sig = {"explicit-attrs": "encase#explicit-align-size", "builtin-member": "encase#builtin-member-dropped"}.get(p["cls"], "encase#plain-mismatch")
+            counts["mismatch:" + p["cls"]] = counts.get("mismatch:" + p["cls"], 0) + 1
+            items.append((sig, f"struct {sname}: WGSL offsets {p['noffs']} size {p['nsize']}, encase wrote offsets {offs} len {lens}", cid, True))
+    viol, kn = classify_and_report(pid, items, known, write_replay, case_by_id)
+    return {"structs_measured": measured, "encase_verdicts": counts,
+            "oracle": "encase 0.10 StorageBuffer::write on sentinel values, compiled from the real generated module (harness batch encase)"}, viol, kn, []
+
+
+PROPS["C10"] = dict(
+    lean_modules=["WgslVerif.Props.C10"],
+    theorems=["WgslVerif.C10_leaf", "WgslVerif.C10_struct_algorithm", "WgslVerif.C10_offsets_partial"],
+    driver_props=["C10"],
+    streams=lambda tier, seed: [("gen", "structs", seed, 100 if tier == "quick" else 3000), ("fixtures",)],
+    opts=q_opts([20], [20, 22, 68]),
+    extra=extra_c10,
+    rule="cases: generator profiles structs/general under encase + glam; every emitted ShaderType struct is constructed with sentinel values, written through the REAL "
+         "encase::StorageBuffer (compiled against encase 0.10 + glam 0.29) and the byte length and the offset of every field are compared with (a) the Lean transcription Ext.Encase and "
+         "(b) naga's WGSL offsets / size; runtime arrays with 0, 1, 3 elements; non-trivial = at least one ShaderType struct; distinct = distinct WGSL text",
+    trusted_base=COMMON_TRUSTED + ["Ext.Encase transcribes encase 0.10's metadata; validated against the real bytes for every measured struct (incl. those outside the property's domain)",
+                                   "Ext.WgslLayout (see C05)"],
+    assumptions=["the property's domain: f32/i32/u32 scalars and vectors, square float matrices, fixed arrays and nested structs of those, trailing runtime arrays; "
+                 "non-square matrices, bool are outside; f64 and explicit @size/@align and dual-use structs with builtin members are recorded findings"],
+)
+
+
+C01_PATTERNS = [
+    (r"`bool: ", "rustc#bool-member-with-pod-or-shadertype"),
+    (r"`f64: Shader|DVec\d|DMat\d", "rustc#f64-with-encase"),
+    (r"serde::(Serialize|Deserialize)", "rustc#serde-array-longer-than-32"),
+    (r"defined multiple times|expected type, found module|has no field named|no field `|generic argument", "rustc#name-clash-with-generated-item"),
+    (r"ambiguous associated type", "rustc#struct-named-like-a-crate"),
+    (r"let bindings cannot shadow|refutable pattern|mismatched types|cannot subtract|cannot add|cannot be applied to type", "rustc#lowercase-const-shadows-derive-local"),
+]
+C01_SECONDARY = [r"the trait `Copy` cannot be implemented", r"cannot find type", r"aborting due to"]
+
+
+def extra_c01(pid, tier, seed, workdir, known, write_replay):
+    """rustc (cargo check) on the real generated modules against the real wgpu 24 / bytemuck / encase / glam / serde (harness `batch check`)"""
+    n = 1 if tier == "quick" else 10
+    cases = write_stream_file([("fixtures",), ("gen", "structs", seed, 20 * n), ("gen", "general", seed, 25 * n), ("gen", "vertex", seed, 12 * n),
+                               ("gen", "consts", seed, 12 * n), ("gen", "entries", seed, 12 * n), ("gen", "textures", seed, 8 * n), ("gen", "unicode", seed, 8 * n)],
+                              os.path.join(workdir, "c01.cases"))
+    case_by_id = {}
+    for l in open(cases):
+        m = re.match(r'\(src "([^"]*)"', l)
+        if m:
+            case_by_id[m.group(1)] = l.rstrip("\n")
+    opts = "0,3,4,8,15,20,31" if tier == "quick" else "0,1,2,3,4,6,8,15,16,20,23,31,48"
+    out_path = os.path.join(workdir, "c01.out")
+    b = subprocess.run([os.path.join(BIN, "batch"), "check", "--cases", cases, "--opts", opts, "--out", out_path],
+                       stdout=subprocess.PIPE, stderr=subprocess.STDOUT, text=True)
+    items, counts, nmod = [], {}, 0
+    if not os.path.exists(out_path):
+        items.append(("rustc#harness", "batch check produced no result: " + b.stdout[-300:], "", False))
+    else:
+        for line in open(out_path):
+            if not line.startswith("(mod "):
+                if line.startswith("(summary"):
+                    counts["summary"] = line.strip()[:200]
+                continue
+            t = parse_sexp(line)[0]
+            cid, opt, verdict = sx(t[1]), t[2], t[3]
+            nmod += 1
+            if verdict == "ok":
+                counts["ok"] = counts.get("ok", 0) + 1
+                continue
+            kind = verdict[0]
+            if kind == "permitted":
+                counts["permitted"] = counts.get("permitted", 0) + 1
+                continue
+            if kind == "gen":
+                counts["gen:" + sx(verdict[1])] = counts.get("gen:" + sx(verdict[1]), 0) + 1
+                continue            # the generator did not return Ok: outside this property
+            if kind == "syntax":
+                items.append(("rustc#syntax-error", f"option set {opt}: the generated text does not parse: {sx(verdict[1])[:200]}", cid, True))
+                continue
+            msgs = [(sx(e[0]), sx(e[1]), sx(e[2])) for e in verdict[1:]]
+            sigs = set()
+            unknown = []
+            for code, msg, srcline in msgs:
+                hit = next((sig for pat, sig in C01_PATTERNS if re.search(pat, msg)), None)
+                if hit:
+                    sigs.add(hit)
+                elif not any(re.search(p, msg) for p in C01_SECONDARY):
+                    unknown.append(f"{code} {msg} @ {srcline}"[:160])
+            if unknown and not sigs:
+                items.append(("rustc#unclassified", f"option set {opt}: rustc rejects the module: {unknown[0]}", cid, True))
+            for s_ in sigs:
+                counts[s_] = counts.get(s_, 0) + 1
+                items.append((s_, f"option set {opt}: rustc rejects the module: " + "; ".join(f"{c} {m_}" for c, m_, _ in msgs[:2])[:260], cid, True))
+    viol, kn = classify_and_report(pid, items, known, write_replay, case_by_id)
+    return {"modules_compiled": nmod, "rustc_verdicts": counts,
+            "oracle": "cargo check of the real generated modules against wgpu 24.0.5, bytemuck 1.25 (derive), encase 0.10 (glam), glam 0.29, serde 1 (nalgebra is not in the offline registry: never compiled)"}, viol, kn, []
+
+
+PROPS["C01"] = dict(
+    lean_modules=["WgslVerif.Props.C01"],
+    theorems=["WgslVerif.C01_no_keyword_idents", "WgslVerif.C01_entry_consts_distinct", "WgslVerif.C01_group_items_distinct", "WgslVerif.C01_struct_items_distinct",
+              "WgslVerif.C01_nested_struct_emitted"],
+    driver_props=["ALL"],
+    streams=lambda tier, seed: [("fixtures",), ("gen", "general", seed, 150 if tier == "quick" else 4000), ("gen", "structs", seed, 80 if tier == "quick" else 2000),
+                                ("gen", "unicode", seed, 50 if tier == "quick" else 1000)],
+    opts=q_opts([0, 7, 21, 38, 47, 90], list(range(0, 96, 5))),
+    extra=extra_c01,
+    rule="whole-output correspondence (every section, 6 option sets) + the real generated modules of fixtures and generator profiles structs/general/vertex/consts/entries/textures/unicode "
+         "under 7 (13 thorough) option sets are compiled with rustc against the real wgpu 24 / bytemuck / encase / glam / serde; permitted failures (layout assertions, Pod padding) are "
+         "recognised by their const-evaluation messages; non-trivial = the generator returned Ok; distinct = distinct (WGSL text, option set)",
+    trusted_base=COMMON_TRUSTED + ["rustc is the judge of 'compiles'; the Lean theorems cover fragments of the static semantics only (identifier legality on the prettyplease path, distinctness of generated item names, "
+                                   "resolution of nested struct references)", "nalgebra is not available offline: the Nalgebra representation is covered at fact level only"],
+    assumptions=["partial: 'rustc accepts' cannot be a Lean theorem; classes of rejected modules are recorded findings, any other rejection is a violation"],
+)
